@@ -529,7 +529,7 @@ func c17Structure(c *Ctx, r *Report) {
 	for _, b := range sh.Blocks {
 		for _, in := range b.Instrs {
 			if cm, ok := isCallTo(in, "Store"); ok && len(cm.Args) == 2 {
-				if fa, ok := cm.Args[0].(*ssa.FieldAddr); ok && fieldVarOf(fa) != nil && fieldVarOf(fa).Name() == "isShutdown" {
+				if fa, ok := cm.Args[0].(*ssa.FieldAddr); ok && fieldVarOf(fa) != nil && isAtomicBool(fieldVarOf(fa).Type()) && fa.X == sh.Params[0] {
 					if v, isC := constBool(cm.Args[1]); isC && v {
 						storeTrue = in
 					}
@@ -537,7 +537,7 @@ func c17Structure(c *Ctx, r *Report) {
 			}
 			if call, ok := in.(*ssa.Call); ok && call.Common().IsInvoke() && call.Common().Method.Name() == "Close" {
 				if ld, ok := call.Common().Value.(*ssa.UnOp); ok {
-					if fa, ok := ld.X.(*ssa.FieldAddr); ok && fieldVarOf(fa) != nil && fieldVarOf(fa).Name() == "listener" {
+					if fa, ok := ld.X.(*ssa.FieldAddr); ok && fieldVarOf(fa) != nil && hasMethods(fieldVarOf(fa).Type(), "Accept", "Close") {
 						closeL = in
 					}
 				}
@@ -556,7 +556,7 @@ func c17Structure(c *Ctx, r *Report) {
 	for _, b := range h.Blocks {
 		for _, in := range b.Instrs {
 			if cm, ok := isCallTo(in, "Store"); ok && len(cm.Args) == 2 {
-				if fa, ok := cm.Args[0].(*ssa.FieldAddr); ok && fieldVarOf(fa) != nil && fieldVarOf(fa).Name() == "isBeingHandled" {
+				if fa, ok := cm.Args[0].(*ssa.FieldAddr); ok && fieldVarOf(fa) != nil && isAtomicBool(fieldVarOf(fa).Type()) && fa.X == h.Params[0] {
 					if v, isC := constBool(cm.Args[1]); isC {
 						if v {
 							setT = in
@@ -741,3 +741,8 @@ func c17ShutdownScan(c *Ctx, r *Report, sh *ssa.Function, control bool) map[stri
 }
 
 func inLoop(b *ssa.BasicBlock) bool { return blockReaches(b, b) }
+
+func isAtomicBool(t types.Type) bool {
+	n, ok := t.(*types.Named)
+	return ok && n.Obj().Pkg() != nil && n.Obj().Pkg().Path() == "sync/atomic" && n.Obj().Name() == "Bool"
+}
